@@ -716,7 +716,7 @@ Lemma copy_core w sws u tws p o w' nu r :
     /\ copy_tree t (top_ctx o (pl (root_node tp))) (st0_of w tws) = Ok (t', st')
     /\ nu = root_uid t' /\ r = combine (copied_uids (o_children o) t) (uids t')
     /\ let w1 := set_ws w tws (insert_child p t' (ws w tws)) (nxt st') in
-       w' = if clears o t then set_ws w1 sws (replace_tree u (clear_src t) (ws w1 sws)) (wnext w1) else w1.
+       w' = if clears o t then set_ws w1 sws (replace_tree u (clear_src (o_children o) t) (ws w1 sws)) (wnext w1) else w1.
 Proof.
   unfold copy. destruct (tfind u (ws w sws)) as [t|] eqn:Et; [|discriminate].
   destruct (tfind p (ws w tws)) as [tp|] eqn:Ep; [|discriminate].
